@@ -33,7 +33,11 @@ class UseGenerator(SimpleCodemod, NameResolutionMixin):
             # NOTE: could also support things like `list` and `tuple`
             # but it's a less compelling use case
             case cst.Name("any" | "all" | "sum" | "min" | "max"):
-                if self.is_builtin_function(original_node):
+                if self.is_builtin_function(original_node) and not (
+                    # `max(*[f(x) for x in xs])` unpacks the list: there is no
+                    # generator form of that (`max(*f(x) for x in xs)` is invalid)
+                    original_node.args[0].star
+                ):
                     match original_node.args[0].value:
                         case cst.ListComp(elt=elt, for_in=for_in):
                             self.add_change(original_node, self.change_description)
